@@ -79,6 +79,10 @@ func (e *Engine) VerifyFunc(c *FuncContract) *FnCtx {
 			continue
 		}
 		for _, l := range locs {
+			if l.ref.Sort == "SCALAR" {
+				fc.modAll[l.arr] = true
+				continue
+			}
 			fc.modset[l.arr] = append(fc.modset[l.arr], fc.define("mod", l.ref))
 		}
 	}
